@@ -92,6 +92,30 @@ fn mutate(src: &str, rng: &mut Rng, kind: u64, counter: &mut usize) -> String {
     out
 }
 
+/// exactly one comment at one token gap
+fn mutate1(src: &str, rng: &mut Rng, counter: &mut usize) -> String {
+    let raw = crate::c11::raw_stream(src);
+    let mut gaps: Vec<usize> = vec![0];
+    let mut depth = 0usize;
+    for (k, c) in raw.classes.iter().enumerate() {
+        match c {
+            | crate::c11::Raw::Open => depth += 1,
+            | crate::c11::Raw::Close if depth > 0 => depth -= 1,
+            | _ => {}
+        }
+        if depth == 0 && !matches!(c, crate::c11::Raw::TextLine) {
+            gaps.push(raw.spans[k].1);
+        }
+    }
+    gaps.retain(|g| src.is_char_boundary(*g));
+    let g = *rng.pick(&gaps);
+    *counter += 1;
+    let ins = rng.pick(&COMMENTS).replace('%', &counter.to_string());
+    let mut out = String::from(src);
+    out.insert_str(g, &ins);
+    out
+}
+
 pub fn run(opts: &Opts) -> i32 {
     let mut sink = Sink::new(&opts.out);
     let mut rng = Rng::new(opts.seed);
@@ -117,6 +141,30 @@ pub fn run(opts: &Opts) -> i32 {
                 tag.push_str("+directive");
             }
             inputs.push((tag, text));
+        }
+    }
+    // generated programs over the whole surface grammar, and every one of them with a comment at
+    // a token gap (all gaps of small programs in the thorough tier)
+    {
+        let n_gen = if opts.thorough() { 6000 } else { 500 };
+        let mut features: std::collections::BTreeMap<&'static str, u64> = Default::default();
+        for k in 0..n_gen {
+            let mut r2 = rng.fork();
+            let mut g = crate::surfgen::SurfGen::new(&mut r2);
+            let text = g.program(2 + (k % 3) as u32);
+            for (f, v) in &g.features {
+                *features.entry(f).or_insert(0) += v;
+            }
+            let prefix = if rng.chance(1, 3) { directive(&mut rng) } else { String::new() };
+            let suffix = if prefix.is_empty() { "" } else { "+directive" };
+            inputs.push((format!("generated:{k}{suffix}"), format!("{prefix}{text}")));
+            let n_comment = if opts.thorough() { 4 } else { 2 };
+            for _ in 0..n_comment {
+                inputs.push((format!("gencomment:{k}{suffix}"), format!("{prefix}{}", mutate1(&text, &mut rng, &mut counter))));
+            }
+        }
+        for (f, v) in features {
+            sink.add(&format!("surfgen_{f}"), v);
         }
     }
     // horizontal-spacing pairs (C14): the mutant must format to the same text as its original
